@@ -315,6 +315,13 @@ def save_clause(col, ob, renames):
 
 def run_case(case):
     K = classes()
+    if 'scope' in case:
+        from harness.impl.c08 import scope_leak_problems
+        from harness.gen import faults as F
+        f = case['scope']['fault']
+        probs = scope_leak_problems(case['scope']['base'], f, K)
+        return {'obs': [], 'fails': [{'signature': 'C07:scope-leak:%s' % F.site_label(f), 'clause': 'scope-leak', 'what': w}
+                                     for w in probs[:1]]}
     data = case['xml'].encode('utf-8')
     obs = []
     fails = []
